@@ -5,7 +5,9 @@
 From Coq Require Import QArith Qabs.
 From Dashu Require Import Base.Prelude Ratio.RatArithModel Ratio.RatArithCanon Ratio.RatArithProofs
   Ratio.RatArithConst Ratio.RatArithRelaxed Ratio.RatArithQ Ratio.RatArithHistory Ratio.RatArithSummary
-  Ratio.RatArithRelaxedInv.
+  Ratio.RatArithRelaxedInv Ratio.RatioAtoms Ratio.RatioBodiesModel Ratio.RatioBodiesProof
+  Int.BitsKernels Ratio.Reduce2WordsModel Ratio.Reduce2WordsProof.
+From DashuGen Require Import RatioBodies.
 Open Scope Z_scope.
 
 (* ------------------------------------------------------------ the canonical form *)
@@ -297,3 +299,124 @@ Theorem C04_parse_zero_denominator_before_fix_refuted :
   exists r, parse_before_fix 1 0 = Ok r /\ ~ Inv r /\ parse_spec 1 0 = Err 0.
 Proof. exact parse_before_fix_refuted. Qed.
 Print Assumptions C04_parse_zero_denominator_before_fix_refuted.
+
+(* ------------------------------------------------------------ round 3: the bodies REGENERATED from the Rust source
+   (coq/gen/RatioBodies.v, tools/translate_c04_r3.py: one definition per impl_binop_with_macro! / impl_binop_with_int!
+   invocation of rational/src/{add,mul,div}.rs, plus Repr::reduce/reduce_with_hint/reduce2/sqr/cubic/pow/inv/neg/abs,
+   signum, `* Sign`, split_at_point/ceil/floor/trunc/fract/round and from_parts/from_parts_signed/is_zero/is_one/is_int); gbin/gxbin/gint/gxint/... only dispatch on the operator *)
+Theorem C04_gen_constructors : forall n d,
+  (0 < d -> gen_reduce (n, d) = canon n d) /\
+  (forall hint, 0 < d -> (Z.gcd n d | hint) -> gen_reduce_with_hint (n, d) hint = canon n d) /\
+  (0 < d -> exists r, gen_reduce2 (n, d) = Ok r /\ RInv2 r /\ veq r (n, d)) /\
+  (0 <= d -> gen_RBig_from_parts n d = from_parts_spec n d) /\
+  gen_RBig_from_parts_signed n d = from_parts_signed_spec n d /\
+  (0 <= d -> res_veq (gen_Relaxed_from_parts n d) (from_parts_spec n d)) /\
+  res_veq (gen_Relaxed_from_parts_signed n d) (from_parts_signed_spec n d).
+Proof. exact gen_constructors_ok. Qed.
+Print Assumptions C04_gen_constructors.
+
+Theorem C04_gen_binop_is_spec : forall o x y, Inv x -> Inv y ->
+  gbin o x y = bin_spec o x y /\ (forall r, gbin o x y = Ok r -> Inv r).
+Proof. exact gbin_spec. Qed.
+Print Assumptions C04_gen_binop_is_spec.
+
+Theorem C04_gen_relaxed_binop_exact : forall o x y, RInv x -> RInv y ->
+  res_veq (gxbin o x y) (bin_spec o x y) /\ (forall r, gxbin o x y = Ok r -> RInv2 r).
+Proof. exact gxbin_spec. Qed.
+Print Assumptions C04_gen_relaxed_binop_exact.
+
+Theorem C04_gen_div_rem_euclid : forall x y, Inv x -> Inv y ->
+  gdive x y = dive_spec x y /\ gdivreme x y = divreme_spec x y.
+Proof. exact geuclid_spec. Qed.
+Print Assumptions C04_gen_div_rem_euclid.
+
+Theorem C04_gen_relaxed_div_rem_euclid : forall x y, RInv x -> RInv y ->
+  gxdive x y = dive_spec x y /\ res_veq_q (gxdivreme x y) (divreme_spec x y).
+Proof. exact gxeuclid_spec. Qed.
+Print Assumptions C04_gen_relaxed_div_rem_euclid.
+
+Theorem C04_gen_intop_is_spec : forall l u o x i, Inv x -> (u = true -> 0 <= i) ->
+  gint l u o x i = int_spec o x i /\ (forall r, gint l u o x i = Ok r -> Inv r).
+Proof. exact gint_spec. Qed.
+Print Assumptions C04_gen_intop_is_spec.
+
+Theorem C04_gen_relaxed_intop_exact : forall l u o x i, RInvE x -> (u = true -> 0 <= i) ->
+  res_veq (gxint l u o x i) (int_spec o x i) /\ (forall r, gxint l u o x i = Ok r -> RInvE r).
+Proof. exact gxint_spec. Qed.
+Print Assumptions C04_gen_relaxed_intop_exact.
+
+Theorem C04_gen_unop_is_spec : forall x_ o x, Inv x ->
+  gun x_ o x = un_spec o x /\ (forall v, gun x_ o x = Ok v -> Inv v).
+Proof. exact gun_spec. Qed.
+Print Assumptions C04_gen_unop_is_spec.
+
+Theorem C04_gen_relaxed_unop_exact : forall o x, RInvE x ->
+  res_veq (gun true o x) (un_spec o x) /\ (forall v, gun true o x = Ok v -> RInvE v).
+Proof. exact gxun_spec. Qed.
+Print Assumptions C04_gen_relaxed_unop_exact.
+
+Theorem C04_gen_sign_split_round : forall x_ s x, Inv x ->
+  gmulsign x_ s x = mulsign_spec s x /\ gsplit x = split_spec x /\ Inv (snd (split_spec x)) /\ gtrunc x = trunc_spec x /\
+  gfloor x = floor_spec x /\ gceil x = ceil_spec x /\ ground x = round_spec x.
+Proof. exact ground_family_spec. Qed.
+Print Assumptions C04_gen_sign_split_round.
+
+Theorem C04_gen_pow : forall x e, Inv x -> 0 <= e -> gpow x e = pow_spec x e /\ Inv (pow_spec x e).
+Proof. exact gpow_spec. Qed.
+Print Assumptions C04_gen_pow.
+
+Theorem C04_gen_bodies_are_the_transcriptions : forall o x y l u p i,
+  gbin o x y = bin_asis o x y /\ gxbin o x y = xbin_asis o x y /\
+  gdivreme x y = divreme_asis x y /\ gxdivreme x y = xdivreme_asis x y /\
+  gint l u p x i = int_asis u p x i /\ gxint l u p x i = xint_asis u p x i.
+Proof. exact gen_bodies_asis. Qed.
+Print Assumptions C04_gen_bodies_are_the_transcriptions.
+
+Theorem C04_gen_history_invariant_and_exact : forall ops p, Forall Inv p ->
+  hrun heval_gen ops p = hrun heval_spec ops p /\ Forall Inv (hrun heval_gen ops p).
+Proof. exact hrun_gen_spec. Qed.
+Print Assumptions C04_gen_history_invariant_and_exact.
+
+Theorem C04_gen_history_relaxed_lock_step : forall ops px p, PoolRel px p -> Forall Inv p -> Forall RInvE px ->
+  PoolRel (hrun heval_xgen ops px) (hrun heval_gen ops p) /\ Forall RInvE (hrun heval_xgen ops px).
+Proof. exact hrun_xgen_lock_step. Qed.
+Print Assumptions C04_gen_history_relaxed_lock_step.
+
+Theorem C04_gen_predicates : forall n d, 0 < d ->
+  (gen_RBig_is_zero n d = true <-> veq (n, d) (0, 1)) /\
+  (gen_Relaxed_is_zero n d = true <-> veq (n, d) (0, 1)) /\
+  (gen_Relaxed_is_one n d = true <-> veq (n, d) (1, 1)) /\
+  (Inv (n, d) -> (gen_RBig_is_one n d = true <-> veq (n, d) (1, 1)) /\ (gen_RBig_is_int n d = true <-> (d | n))).
+Proof. exact gen_predicates_ok. Qed.
+Print Assumptions C04_gen_predicates.
+
+(* Repr::reduce2 on the typed magnitudes (inline double word / heap word list, any word size): word scan for
+   trailing_zeros, shr_dword / shr_large with carries, floor correction for a negative numerator *)
+Theorem C04_reduce2_word_level : forall w, 0 < w -> forall s nr dr, brepr_ok w nr -> brepr_ok w dr ->
+  match reduce2_words w s nr dr with
+  | Ok (n', d') => reduce2_asis (signed s (bvalue w nr), bvalue w dr) = Ok (n', bvalue w d') /\ brepr_ok w d'
+  | Panic p => reduce2_asis (signed s (bvalue w nr), bvalue w dr) = Panic p
+  | _ => False
+  end.
+Proof. exact reduce2_words_correct. Qed.
+Print Assumptions C04_reduce2_word_level.
+
+Theorem C04_relaxed_from_parts_word_level : forall w, 0 < w -> forall n d, 0 <= d ->
+  xfrom_parts_words w n d = xfrom_parts_asis n d.
+Proof. exact xfrom_parts_words_correct. Qed.
+Print Assumptions C04_relaxed_from_parts_word_level.
+
+(* exact conversion from f32 / f64 (from the decoded mantissa and exponent on): the dyadic in lowest terms *)
+Theorem C04_reduce2_of_dyadic_is_canonical : forall n k, 0 <= k -> reduce2_asis (n, 2 ^ k) = Ok (canon n (2 ^ k)).
+Proof. exact reduce2_dyadic_canon. Qed.
+Print Assumptions C04_reduce2_of_dyadic_is_canonical.
+
+Theorem C04_from_float_exact_lowest_terms : forall man e,
+  from_float_asis man e = Ok (from_float_spec man e) /\ Inv (from_float_spec man e).
+Proof. exact from_float_asis_spec. Qed.
+Print Assumptions C04_from_float_exact_lowest_terms.
+
+(* rational/src/iter.rs is not declared in lib.rs: there is no Sum / Product for RBig / Relaxed to cover *)
+Theorem C04_iter_rs_is_not_a_module : gen_ratio_iter_is_a_module = false.
+Proof. exact iter_not_a_module. Qed.
+Print Assumptions C04_iter_rs_is_not_a_module.
